@@ -100,13 +100,44 @@ def run(ctx):
         shutil.rmtree(base, ignore_errors=True)
 
 
-def cli(args, cwd):
+LEGACY_LOCALE = {"PYTHONUTF8": "0", "LC_ALL": "C", "LANG": "C", "PYTHONCOERCECLOCALE": "0"}  # default text encoding: ASCII
+
+
+def cli(args, cwd, legacy_locale=False):
     env = dict(os.environ)
     env["PYTHONPATH"] = core.REPO
     env.pop("PYTHONHASHSEED", None)
+    if legacy_locale:
+        env.update(LEGACY_LOCALE)
     p = subprocess.run([core.PY, "-c", "import sys; sys.path.insert(0, %r); from mappyfile.cli import main; main()" % core.REPO] + args,
-                       cwd=cwd, env=env, capture_output=True, text=True, timeout=300, encoding="utf-8")
+                       cwd=cwd, env=env, capture_output=True, text=True, timeout=300, encoding="utf-8", errors="replace")
     return p
+
+
+API_CHILD = """
+import sys, io
+sys.path.insert(0, %r)
+import mappyfile
+inp, o_save, o_dump, o_dumps = sys.argv[1:5]
+d = mappyfile.open(inp)
+mappyfile.save(d, o_save)
+with io.open(o_dump, "w", encoding="utf-8", newline="") as fp:
+    mappyfile.dump(d, fp)
+with io.open(o_dumps, "w", encoding="utf-8", newline="") as fp:
+    fp.write(mappyfile.dumps(d))
+"""
+
+
+def api_child(inp, wd, tag):
+    """open / save / dump / dumps of one file in a child process whose DEFAULT text encoding is not UTF-8 (a Windows code page, a
+    legacy locale): the file front ends name their encoding themselves."""
+    env = dict(os.environ)
+    env.pop("PYTHONHASHSEED", None)
+    env.update(LEGACY_LOCALE)
+    outs = [os.path.join(wd, f"{tag}_{k}.map") for k in ("save", "dump", "dumps")]
+    p = subprocess.run([core.PY, "-c", API_CHILD % core.REPO, inp] + outs, cwd=wd, env=env, capture_output=True, text=True, timeout=300,
+                       encoding="utf-8", errors="replace")
+    return p, outs
 
 
 def _run(ctx, base):
@@ -244,7 +275,23 @@ def _run(ctx, base):
                     with open(args[2], "wb") as f:
                         f.write({"other-line-ends": other, "identical": want, "garbage": b"MAP\n  NAME \"old\"\nEND\n"}[pre])
                 case["existing_output"] = pre
-            p = cli(args, wd)
+            legacy = j % 2 == 0
+            p = cli(args, wd, legacy_locale=legacy)
+            if legacy:
+                res.count("cli_runs_with_non_utf8_default_encoding")
+                case["default_encoding"] = "ascii (PYTHONUTF8=0, LC_ALL=C)"
+                pc, outs = api_child(inp, wd, f"child{j}")
+                res.count("api_child_runs_with_non_utf8_default_encoding")
+                if pc.returncode != 0:
+                    res.violation("api-fails-when-default-encoding-is-not-utf8", case, pc.stderr[-400:], "save / dump / dumps succeed")
+                else:
+                    blobs = [open(o, "rb").read() for o in outs]
+                    ref = mappyfile.dumps(mappyfile.open(inp)).encode("utf-8")
+                    for nm, b in zip(("save", "dump", "dumps"), blobs):
+                        if b != ref:
+                            res.violation("file-output-depends-on-default-encoding", dict(case, via=nm), b[:200].decode("utf-8", "replace"),
+                                          ref[:200].decode("utf-8", "replace"))
+                            break
             if want is None:
                 continue
             if p.returncode != 0:
@@ -320,7 +367,7 @@ def _run(ctx, base):
                     want_lines.append(f"{fn} failed to parse successfully")
                     problems += 1
                     continue
-                msgs = mappyfile.validate(d, version if version else 8.2)
+                msgs = mappyfile.validate(d, version=version if version else 8.2)
                 if msgs:
                     for m in msgs:
                         want_lines.append("{fn} (Line: {line} Column: {column}) {message} - {error}".format(fn=fn, **m))
@@ -333,7 +380,7 @@ def _run(ctx, base):
             plain_problems = 0
             for fn in files:
                 try:
-                    plain_problems += len(mappyfile.validate(mappyfile.open(fn), version if version else 8.2)) or 0
+                    plain_problems += len(mappyfile.validate(mappyfile.open(fn), version=version if version else 8.2)) or 0
                 except Exception:
                     plain_problems += 1
             case = {"part": "cli-validate", "targets": targets, "version": version, "problems": problems}
